@@ -174,4 +174,47 @@ theorem encodeChars_eq_single (cs : List Char) (c : Char) (hc : c.toNat ≤ 127)
       exact this
     rw [this]
 
+/-- a character outside ASCII starts with a byte of at least 0x80 ... in fact 0xC2 -/
+theorem encChar_head_ge (c : Char) (h : 127 < c.toNat) : ∃ b t, encChar c = b :: t ∧ 128 ≤ b.toNat := by
+  rw [encChar_eq, if_neg (by omega)]
+  split
+  · exact ⟨_, _, rfl, by simp only [UInt8.toNat_ofNat']; omega⟩
+  · split
+    · exact ⟨_, _, rfl, by simp only [UInt8.toNat_ofNat']; omega⟩
+    · exact ⟨_, _, rfl, by simp only [UInt8.toNat_ofNat']; omega⟩
+
+theorem char_eq_of_toNat_eq (c d : Char) (h : c.toNat = d.toNat) : c = d := by
+  apply Char.ext
+  apply UInt32.toNat_inj.mp
+  exact h
+
+/-- an ASCII text is the encoding of itself only -/
+theorem encodeChars_inj_ascii : ∀ (as cs : List Char), (∀ c ∈ as, c.toNat ≤ 127) →
+    encodeChars cs = encodeChars as → cs = as := by
+  intro as
+  induction as with
+  | nil => intro cs _ h; exact encodeChars_eq_nil cs h
+  | cons a as ih =>
+    intro cs has h
+    have ha : a.toNat ≤ 127 := has a (by simp)
+    cases cs with
+    | nil =>
+      rw [encodeChars_nil, encodeChars_cons] at h
+      exact absurd h.symm (by simp [encChar_ne_nil])
+    | cons d r =>
+      rw [encodeChars_cons, encodeChars_cons, encChar_ascii a ha] at h
+      by_cases hd : d.toNat ≤ 127
+      · rw [encChar_ascii d hd] at h
+        simp only [List.cons_append, List.nil_append, List.cons.injEq] at h
+        have h1 := congrArg UInt8.toNat h.1
+        simp only [UInt8.toNat_ofNat'] at h1
+        have : d = a := char_eq_of_toNat_eq d a (by omega)
+        rw [this, ih r (fun c hc => has c (by simp [hc])) h.2]
+      · obtain ⟨b, t, hb, hge⟩ := encChar_head_ge d (by omega)
+        rw [hb] at h
+        simp only [List.cons_append, List.nil_append, List.cons.injEq] at h
+        have h1 := congrArg UInt8.toNat h.1
+        simp only [UInt8.toNat_ofNat'] at h1
+        omega
+
 end Goyang.Lemmas.Utf8
